@@ -194,6 +194,71 @@ pub fn digest_main(args: &[String]) -> i32 {
     0
 }
 
+/// Cold start under contention (run in a fresh process): for every quantiser 1..=31 and both Sorenson
+/// versions, T fresh decoder instances on T threads decode the same coefficient-rich intra picture at the
+/// same moment (spin barrier) - the first use of whatever the code initialises lazily, per quantiser, per
+/// table, per size class, happens concurrently. Afterwards every picture is decoded once more on one
+/// thread; any thread's result that differs from that is printed and the process exits with 1.
+pub fn coldstart_main(args: &[String]) -> i32 {
+    use std::sync::atomic::AtomicUsize;
+    let seed: u64 = args.first().and_then(|s| s.parse().ok()).unwrap_or(1);
+    let t: usize = args.get(1).and_then(|s| s.parse().ok()).unwrap_or(8);
+    let mut pics: Vec<(bool, Vec<u8>, String)> = vec![];
+    let mut rng = Rng::new(seed ^ 0xC17C01D, 0);
+    for q in 1..=31u8 {
+        for v in 0..2u8 {
+            let mut cfg = gen_cfg(&mut rng, Flavour::Sor(v), 16 + 16 * (q as usize % 3), 16);
+            cfg.quant = q;
+            cfg.wide_levels = true;
+            pics.push((true, gen_reference(&mut rng, &cfg).encode(), format!("sorenson v{} q={}", v, q)));
+        }
+        if q % 4 == 1 {
+            let mut cfg = gen_cfg(&mut rng, Flavour::StdPlus, 32, 16);
+            cfg.quant = q;
+            pics.push((false, gen_reference(&mut rng, &cfg).encode(), format!("standard q={}", q)));
+        }
+    }
+    let arrived = AtomicUsize::new(0);
+    let results: Mutex<Vec<(usize, usize, u64)>> = Mutex::new(vec![]);
+    std::thread::scope(|s| {
+        for th in 0..t {
+            let (pics, arrived, results) = (&pics, &arrived, &results);
+            s.spawn(move || {
+                let mut local = vec![];
+                for (k, (sor, bytes, _)) in pics.iter().enumerate() {
+                    let mut d = Dec::new(*sor, false);
+                    arrived.fetch_add(1, Ordering::SeqCst);
+                    while arrived.load(Ordering::SeqCst) < t * (k + 1) {
+                        std::hint::spin_loop();
+                    }
+                    let o = d.decode(bytes);
+                    local.push((k, th, digest_call(&d, &o)));
+                }
+                results.lock().unwrap().extend(local);
+            });
+        }
+    });
+    let mut bad = 0;
+    let res = results.into_inner().unwrap();
+    for (k, (sor, bytes, what)) in pics.iter().enumerate() {
+        let mut d = Dec::new(*sor, false);
+        let o = d.decode(bytes);
+        let want = digest_call(&d, &o);
+        for (kk, th, got) in res.iter() {
+            if *kk == k && *got != want {
+                println!("MISMATCH picture {} ({}): thread {} of {} decoded it differently at first use than a later single-threaded decode", k, what, th, t);
+                bad += 1;
+            }
+        }
+    }
+    println!("coldstart: {} pictures x {} threads, {} mismatches", pics.len(), t, bad);
+    if bad > 0 {
+        1
+    } else {
+        0
+    }
+}
+
 fn tiny(rng: &mut Rng, ptype: u8, tr: u8, w: usize, h: usize) -> Vec<u8> {
     let mut cfg = crate::mon::ladder::cfg_for(rng, Flavour::Sor(0), w, h, 0);
     cfg.tr = tr;
@@ -394,6 +459,23 @@ pub fn run(ctx: &Ctx) -> (Report, String) {
     // instances that keep large pictures alive (process-wide budgets)
     if !miri && ctx.is_main() {
         ladder(ctx, &mut rep);
+        // cold starts under contention, each in a fresh process (lazy initialisation happens once per process)
+        let runs = ctx.n(12, 100);
+        for r in 0..runs {
+            let threads = [8usize, 16, 4][(r % 3) as usize];
+            rep.evaluations += 1;
+            match std::process::Command::new(std::env::current_exe().unwrap()).args(["coldstart", &(ctx.seed + r).to_string(), &threads.to_string()]).output() {
+                Ok(o) if o.status.code() == Some(0) => rep.count("cold_start_processes_equal"),
+                Ok(o) if o.status.code() == Some(1) => {
+                    let out = String::from_utf8_lossy(&o.stdout);
+                    let first = out.lines().find(|l| l.starts_with("MISMATCH")).unwrap_or("").to_string();
+                    rep.violation("cold-start/concurrent-first-use", format!("fresh process, {} threads decoding the same pictures at the same moment: {}", threads, first), J::obj().set("property", "C17").set("seed", ctx.seed).set("kind", "coldstart").set("run", r));
+                }
+                Ok(o) => rep.violation("cold-start/process-died", format!("cold-start process ended with {:?}: {}", o.status, String::from_utf8_lossy(&o.stderr).chars().take(300).collect::<String>()), J::obj().set("property", "C17").set("seed", ctx.seed).set("kind", "coldstart").set("run", r)),
+                Err(e) => rep.inconclusive.push(format!("could not start the cold-start process: {}", e)),
+            }
+        }
+        rep.require("cold_start_processes_equal", runs * 9 / 10);
     }
     // concurrent replicas
     let rounds = if miri { 1 } else { ctx.n(200, 3000) };
